@@ -318,6 +318,10 @@ def _through_file(g, external=False):
     finally:
         os.unlink(path)
     flags = {v.id: v.fixed for v in g._vertices}
+    if any(v.fixed for v in g2._vertices):
+        # (GraphSLAM!Reload, keep = TRUE) the library's file claims to carry the flags: the graph is used as loaded -- a user of such a library
+        # does not set them again.  Today's format has no field for them (keep = FALSE): nothing comes back set and the flags are set again.
+        return g2
     for v in g2._vertices:
         v.fixed = flags[v.id]
     return g2
